@@ -691,6 +691,38 @@ def damage_xml(objs, rng: random.Random, sweep=None):
     return None, None, None
 
 
+def deep_nesting_check() -> List[C.Failing]:
+    """(round 8, named by a seeding agent) a WELL-FORMED document may be nested deeper than the interpreter follows (collections
+    within collections; XML has no such limit in lxml's parser, JSON has): failsafe reading does not raise, strict reading raises a
+    documented kind.  Documents are built as text (the standard encoder itself gives up at these depths)."""
+    c03._quiet()
+    from basyx.aas.adapter.json import read_aas_json_file
+    out: List[C.Failing] = []
+    leaf = '{"modelType": "Property", "idShort": "p", "valueType": "xs:int", "value": "1"}'
+    for depth in (900, 5000, 200000):
+        doc = ('{"submodels": [{"modelType": "Submodel", "id": "urn:deep", "submodelElements": ['
+               + '{"modelType": "SubmodelElementCollection", "idShort": "c", "value": [' * depth + leaf + "]}" * depth + "]}]}")
+        for failsafe in (True, False):
+            case = {"deep_nesting": depth, "failsafe": failsafe}
+            try:
+                list(read_aas_json_file(io.StringIO(doc), failsafe=failsafe))
+                continue
+            except (KeyError, ValueError, TypeError) as e:
+                if not failsafe:
+                    continue
+                kind = type(e).__name__
+            except BaseException as e:   # noqa
+                kind = type(e).__name__
+            out.append(C.Failing(f"{'failsafe' if failsafe else 'strict'}:json:deep-nesting:raises:{kind}",
+                                 f"a well-formed JSON document with {depth} collections inside one another: the {'failsafe' if failsafe else 'strict'} "
+                                 f"reader raised {kind}" + ("" if failsafe else " (not a documented kind)"), case))
+    seen, uniq = set(), []
+    for f in out:
+        if f.sig not in seen:
+            seen.add(f.sig); uniq.append(f)
+    return uniq
+
+
 def oracle(ctx: C.Ctx, cov: C.Coverage, n: Optional[int] = None, seed: Optional[int] = None) -> List[C.Failing]:
     out, sigs = [], set()
     seed = ctx.seed if seed is None else seed
@@ -742,6 +774,7 @@ def oracle(ctx: C.Ctx, cov: C.Coverage, n: Optional[int] = None, seed: Optional[
     out += [f for f in foreign_forms_check() if f.sig not in sigs and f.sig not in {g.sig for g in out}]
     out += [f for f in duplicate_id_check() if f.sig not in {g.sig for g in out}]
     out += [f for f in blank_text_check() if f.sig not in {g.sig for g in out}]
+    out += [f for f in deep_nesting_check() if f.sig not in {g.sig for g in out}]
     return out
 
 
@@ -932,6 +965,9 @@ def search(ctx: C.Ctx, disagreements, broken) -> List[C.Failing]:
 
 
 def replay(case) -> Optional[C.Failing]:
+    if isinstance(case, dict) and "deep_nesting" in case:
+        fs_ = [f for f in deep_nesting_check() if f.case.get("failsafe") == case["failsafe"]]
+        return fs_[0] if fs_ else None
     if isinstance(case, dict) and "duplicate_id" in case:
         fs_ = [f for f in duplicate_id_check() if f.case.get("duplicate_id") == case["duplicate_id"]]
         return fs_[0] if fs_ else None
